@@ -90,7 +90,8 @@ pub fn record(seed: u64, tier: &str, out_path: &str) {
     let mut events = 0u64;
     // every length 0..=4096 is visited across signers (lengths are dealt round-robin)
     let mut next_len = 0usize;
-    for s in 0..n_signers {
+    let n_hist = if thorough { 80 } else { 14 };
+    for s in 0..n_signers + n_hist {
         let sd = if s < 3 { seed_of(s) } else { let b = rng.bytes(32); b.try_into().unwrap() };
         let pk = interp::pk_of_seed(&sd);
         writeln!(out, "{}", json!({"ev": "new"})).unwrap();
@@ -100,12 +101,30 @@ pub fn record(seed: u64, tier: &str, out_path: &str) {
         let mut msg_start = 0usize;                    // index of first chunk of the current message
         let mut starts: Vec<usize> = vec![0];
         let per_signer = 4097 / n_signers as usize + 1;
-        for m in 0..32usize.max(per_signer) {
-            let len = if m < per_signer { let l = next_len % 4097; next_len += 1; l } else { rng.below(4097) as usize };
+        // the plan of this signer: (message length, forced chunking)
+        let mut plan: Vec<(usize, Option<u64>)> = Vec::new();
+        if s < n_signers {
+            for m in 0..32usize.max(per_signer) {
+                plan.push((if m < per_signer { let l = next_len % 4097; next_len += 1; l } else { rng.below(4097) as usize }, None));
+            }
+        } else {
+            // "history" signers: what was signed long before must not matter. A few large messages (fed whole or in pieces, so
+            // that the internal buffer grows in different ways), then long runs of small ones; alternations; ramps
+            let bigs = [3000usize, 3500, 4096, 2049, 4095, 1025, 2500, 4097 - 1];
+            let small = |rng: &mut Rng| rng.below(1025) as usize;
+            match (s - n_signers) % 5 {
+                0 => { let a = *rng.pick(&bigs); let b = *rng.pick(&bigs); plan.push((a, Some(0))); plan.push((b, Some(0))); for _ in 0..44 { let l = small(&mut rng); plan.push((l, None)); } }
+                1 => { plan.push((3000, Some(0))); plan.push((3500, Some(0))); for _ in 0..44 { let l = small(&mut rng); plan.push((l, Some(0))); } }
+                2 => { for k in 0..24 { if k % 2 == 0 { plan.push((*rng.pick(&bigs), None)); } else { let l = small(&mut rng); plan.push((l, None)); } } for _ in 0..30 { let l = small(&mut rng); plan.push((l, None)); } }
+                3 => { let mut l = 4096usize; while l > 0 { plan.push((l, Some(0))); l /= 2; } for _ in 0..40 { let l = small(&mut rng); plan.push((l, None)); } }
+                _ => { for _ in 0..3 { plan.push((*rng.pick(&bigs), Some(3))); } for _ in 0..44 { let l = small(&mut rng); plan.push((l, None)); } }
+            }
+        }
+        for (len, forced) in plan {
             let msg = rng.bytes(len);
             // chunking: whole / bytes / random pieces / pieces with empty chunks
             let mut pieces: Vec<Vec<u8>> = Vec::new();
-            match rng.below(5) {
+            match forced.unwrap_or_else(|| rng.below(5)) {
                 0 => pieces.push(msg.clone()),
                 1 if len <= 300 => for b in &msg { pieces.push(vec![*b]); },
                 2 => { pieces.push(vec![]); pieces.push(msg.clone()); pieces.push(vec![]); }
@@ -176,6 +195,49 @@ pub fn record(seed: u64, tier: &str, out_path: &str) {
         check("short-msg", &pk, &msg[..len / 2], &sig, false);
         let mut longer = msg.clone(); longer.push(0);
         check("long-msg", &pk, &longer, &sig, false);
+    }
+    // edge cases of the verification equation itself: small-order public keys and small-order R with S = 0 (a direct RFC 8032
+    // verification accepts those for which R = [S]B - [k]A holds; a "strict" verifier refuses them all), S + L and S with high
+    // bits set (refused by both)
+    let small_order: [&str; 8] = [
+        "0100000000000000000000000000000000000000000000000000000000000000",
+        "ecffffffffffffffffffffffffffffffffffffffffffffffffffffffffffff7f",
+        "0000000000000000000000000000000000000000000000000000000000000080",
+        "0000000000000000000000000000000000000000000000000000000000000000",
+        "c7176a703d4dd84fba3c0b760d10670f2a2053fa2c39ccc64ec7fd7792ac037a",
+        "c7176a703d4dd84fba3c0b760d10670f2a2053fa2c39ccc64ec7fd7792ac03fa",
+        "26e8958fc2b227b045c3f489f2ef98f0d5dfac05d3c63339b13802886d53fc05",
+        "26e8958fc2b227b045c3f489f2ef98f0d5dfac05d3c63339b13802886d53fc85",
+    ];
+    let mut edge = |case: &str, pk: &[u8], msg: &[u8], sig: &[u8]| {
+        let oracle = interp::verify_oneshot(pk, msg, sig);
+        let imp = guarded(|| { let mut v = MsgVerifier::new(pk); v.update(msg); v.verify(sig) }).unwrap_or(false);
+        writeln!(out, "{}", json!({"ev": "verify", "case": case, "impl": imp, "oracle": oracle, "len": msg.len()})).unwrap();
+        events += 1;
+    };
+    for a in small_order.iter() {
+        for r in small_order.iter() {
+            for m in 0..(if thorough { 32u8 } else { 12 }) {
+                let mut sig = crate::util::unhex(r);
+                sig.extend_from_slice(&[0u8; 32]);
+                edge("small-order", &crate::util::unhex(a), &[m, 0x55, m], &sig);
+            }
+        }
+    }
+    {
+        // the group order L, little-endian
+        let l: [u8; 32] = [0xed, 0xd3, 0xf5, 0x5c, 0x1a, 0x63, 0x12, 0x58, 0xd6, 0x9c, 0xf7, 0xa2, 0xde, 0xf9, 0xde, 0x14, 0, 0, 0, 0, 0, 0, 0, 0, 0, 0, 0, 0, 0, 0, 0, 0x10];
+        for t in 0..8u8 {
+            let sd: [u8; 32] = rng.bytes(32).try_into().unwrap();
+            let pk = interp::pk_of_seed(&sd);
+            let msg = vec![t; 5 + t as usize];
+            let sig = interp::sign_oneshot(&sd, &msg).to_vec();
+            let mut plus_l = sig.clone();
+            let mut carry = 0u16;
+            for i in 0..32 { let v = plus_l[32 + i] as u16 + l[i] as u16 + carry; plus_l[32 + i] = v as u8; carry = v >> 8; }
+            edge("s-plus-l", &pk, &msg, &plus_l);
+            for bit in [5u8, 6, 7] { let mut hi = sig.clone(); hi[63] |= 1 << bit; edge("s-high-bit", &pk, &msg, &hi); }
+        }
     }
     out.flush().unwrap();
     println!("{}", json!({"rec": "summary", "events": events}));
